@@ -622,7 +622,7 @@ def run():
         tk = tk[0]
         txt = sb[tk["s"]:tk["e"]].decode("utf-8")
         ic.append((c, tk, e0))
-        exprs.append("predict_reported gen_tables %s %d %d" % (coq_codes(txt), bs - tk["s"], be - tk["s"]))
+        exprs.append("(predict_reported gen_tables %s %d %d, token_len gen_tables %s)" % (coq_codes(txt), bs - tk["s"], be - tk["s"], coq_codes(txt)))
     cap = ck.n(300, 2500)
     if len(ic) > cap:
         idx = sorted(rng.sample(range(len(ic)), cap))
@@ -635,6 +635,10 @@ def run():
     for (c, tk, e0), v in zip(ic, vals):
         ck.count("corr-interp-rebase", c["src"])
         real = (e0["span"]["start"], e0["span"]["end"])
+        v, tl = v
+        if tl == "None" or tl[1] != tk["e"] - tk["s"]:
+            ck.violation("Model/InterpSpan.v token_len (prefix + quotes + source bytes of the items) is %s, the lexer's token span of %r has %d bytes" % (tl, c["src"], tk["e"] - tk["s"]),
+                         {"src": c["src"], "model": str(tl), "impl": tk["e"] - tk["s"], "kind": "correspondence"})
         if v == "None":
             ck.violation("Model/InterpSpan.v cannot place the marked text in the string token of %r" % c["src"], {"src": c["src"], "kind": "correspondence"})
             continue
